@@ -4,12 +4,13 @@ from lib.rec import Rec
 
 LEVEL = "exploration"
 RULE = ("G5 universes whose names contain characters sorting below '/' (- . +) and prefix pairs (a, a-b, ab), materialised as list, local and "
-        "server tree; G4 searches with '>' forced at a random position (optionally a second '>' further right, aliases, '*', '**', comma "
-        "lists, filters elsewhere). When the observed unfolded forms carry their first '>' at one index i, every finder's result must equal "
-        "R6 (one entry per distinct i-segment prefix among the matches of the search with '>' read as '*': the greatest remaining-segment "
-        "tuple) computed on: the textual matches for FindInList, the typed matches for FindInPaths(local/server), the R7 matches for "
-        "FindInAll. Sid.get_last(key) is compared with the R6 answer of get_with(key=key, value='>') through FindInAll. Non-trivial = "
-        "distinct (universe, search) where some group has at least 2 candidates.")
+        "server tree; G4 searches with '>' forced at a random position (optionally a second '>' further right, aliases, '*', '**', comma lists, "
+        "filters elsewhere). When the observed unfolded forms carry their first '>' at one index i, every finder's result must equal R6 (one "
+        "entry per distinct i-segment prefix among the matches of the search with '>' read as '*': the greatest remaining-segment tuple) "
+        'computed on: the textual matches for FindInList, the typed matches for FindInPaths(local/server), the R7 matches for FindInAll. '
+        "Sid.get_last(key) is compared with the R6 answer of get_with(key=key, value='>') through FindInAll. The get_last questions of the "
+        'previous universe are asked again in the next one (the data changed in between); names include digit runs that order differently as '
+        'numbers and as strings. Non-trivial = distinct (universe, search) where some group has at least 2 candidates.')
 ASSUME = ["searches whose unfolded forms put '>' at different indices, or not as a whole segment in every form, are outside the statement's "
           "premise and not judged", "unfolded forms are observed from the real unfold_search"]
 BUDGET = {"quick": (240, 30), "thorough": (8000, 50)}
